@@ -175,9 +175,9 @@ func runLife(p lifeParams) *scen.Outcome {
 	}
 	var tr *rpc.Transport
 	if p.transp {
-		tr = &rpc.Transport{MaxConnsPerHost: 3, MaxIdleConnsPerHost: 2, KeepAlive: 2 * time.Second, IdleConnTimeout: 3 * time.Second, Options: r.Options()}
+		tr = &rpc.Transport{MaxConnsPerHost: 3 + p.idx%3, MaxIdleConnsPerHost: 2 + p.idx%3, KeepAlive: 2 * time.Second, IdleConnTimeout: 9 * time.Second, Options: r.Options()}
 		tc := rig.TransportCaller{T: tr, Addr: addr}
-		for i := 0; i < 4; i++ {
+		for i := 0; i < 6; i++ {
 			call(tc, uint64(10+i), 0, rig.Forms[i%4])
 		}
 		if p.inflight {
@@ -217,7 +217,7 @@ func runLife(p lifeParams) *scen.Outcome {
 		}
 	}
 	// let a few housekeeping ticks happen
-	time.Sleep(time.Duration(100+rand.New(rand.NewSource(p.seed)).Intn(2500)) * time.Millisecond)
+	time.Sleep(time.Duration(100+rand.New(rand.NewSource(p.seed)).Intn(6000)) * time.Millisecond)
 	synctest.Wait()
 	if p.deadPeer {
 		for _, pr := range r.Net.Pairs() {
